@@ -188,4 +188,86 @@ theorem finalize_twice_counterexample :
     run regroupWorld [.full 0, .save 0, .full 1] = [.items [12, 345], .derived, .items [12, 34, 5]] := by
   constructor <;> decide
 
+/-! # Phase 2 -/
+
+/-- BUILT-IN FILTERS.  For a pipeline made of Take / Slice / (repaired) Shuffle / Riffle / Sort /
+Where / item-wise rewriting filters the denotation is the closed form `filtDen` (the functions of
+`Model/C09`, seeds through `Model/C05`), and that is what every read session delivers, before and
+after any other session -/
+theorem filter_pipeline_reads (att : Item → Attr) (fs : List (Filt × List Nat)) (u : List Item) (d : Demand) :
+    viewN u (filtNodes att fs) = filtDen att u fs ∧
+    viewN u (touchN u (filtNodes att fs) d).1 = filtDen att u fs := filter_pipeline_reads' att fs u d
+
+/-- NOISE.  `Noise.filter` creates `CobaRandom(seed)` per call: every read, complete or abandoned,
+is the corresponding prefix of ONE sequence; an abandoned read scans only what it saw -/
+theorem noise_fresh_rng_stable (step : Nat → Item → Nat × Item) (seed : Nat) (u : List Item) (ds : List Demand) :
+    noiseFresh step seed u ds = ds.map (fun d => d.take (noiseScan step seed u).2) :=
+  noiseFresh_eq step seed u ds
+
+theorem noise_prefix (step : Nat → Item → Nat × Item) (u : List Item) (s k : Nat) :
+    (noiseScan step s (u.take k)).2 = (noiseScan step s u).2.take k := noiseScan_take step u s k
+
+/-- … and the per-call generator is necessary: a filter that keeps its generator between reads
+gives another sequence on the second read -/
+theorem noise_kept_rng_counterexample :
+    noiseFresh (fun s x => (s + 1, x + s)) 0 [0, 0] [.all, .all] = [[0, 1], [0, 1]] ∧
+    noiseKept (fun s x => (s + 1, x + s)) [0, 0] 0 [.all, .all] = [[0, 1], [2, 3]] := by
+  constructor <;> decide
+
+/-- COLLECTIONS.  In a pool holding the members of a collection, no operation addressed to other
+objects — reads, abandoned reads, params, or the shortcuts `cache/chunk/materialize/pickle/save`
+applied to them — changes member `j` at all (hence not what it yields nor its params) -/
+theorem collection_members_independent (w : World) (ops : List Op) (j : Nat) (hj : j < w.objs.length)
+    (h : ∀ op ∈ ops, op.on ≠ j) : getObj (runW w ops) j = getObj w j :=
+  collection_members_independent' ops w j hj h
+
+/-- forced hypothesis "a fresh pipe per member": with ONE `Cache` object for the whole collection
+(`self.filter(Cache(25))`), reading member 1 after member 0 replays member 0's interactions -/
+theorem shared_cache_counterexample :
+    sharedCacheReads (some 25) .unread [[0, 1], [5, 6, 7]] [0, 1] = [[0, 1], [0, 1]] ∧
+    sharedCacheReads (some 25) .unread [[0, 1], [5, 6, 7]] [1, 0] = [[5, 6, 7], [5, 6, 7]] := by
+  constructor <;> decide
+
+def twoMembers : World :=
+  { fin := idP, variant := .fixed,
+    objs := [some { src := { src5 with items := [0, 1] }, ownFin := true, nodes := [.finalize idP none] },
+             some { src := { src5 with items := [5, 6, 7] }, ownFin := true, nodes := [.finalize idP none] }] }
+
+/-- `Environments.cache()` as it is (a fresh Cache per member): each member keeps its own data -/
+example : run (cacheAll twoMembers [0, 1]) [.full 2, .full 3, .part 2 1, .full 3, .full 2] =
+    [.items [0, 1], .items [5, 6, 7], .items [0], .items [5, 6, 7], .items [0, 1]] := by decide
+
+/-- CALLER-OWNED OBJECTS.  Constructor arguments are heap cells of their own; when no source
+rewrites the cell it was built from, no history changes any of them (and the outputs are those of
+the plain model) -/
+theorem caller_objects_unchanged (h : HWorld) (ops : List Op) (hne : ∀ j, h.argEdit j = none) :
+    (hrunW h ops).caller = h.caller ∧ hrun h ops = run h.w ops := caller_objects_unchanged' ops h hne
+
+/-- forced hypothesis: a source that edits the list it was given in place (`reward_features` with a
+missing feature group: "xa" ↦ "a", codes 2 ↦ 1) changes the caller's object on the first started read -/
+def editsArg : HWorld :=
+  { w := cacheWorld .fixed, caller := [[1, 2]],
+    argEdit := fun j => if j = 0 then some (0, fun l => l.map (fun c => if c = 2 then 1 else c)) else none }
+
+theorem inplace_argument_edit_counterexample :
+    (hrunW editsArg [.params 0, .part 0 0]).caller = [[1, 2]] ∧
+    (hrunW editsArg [.part 0 1]).caller = [[1, 1]] := by
+  constructor <;> decide
+
+/-- MEMOISATION (`GroundedFeedback.__call__` under `lru_cache(maxsize=None)`): whatever is evaluated
+in between, re-evaluating the (instance, argument) pairs of a read returns the values of the first time -/
+theorem memo_stable_across_reads (draw : Nat → Nat → Nat → Nat) (m : Memo) (qs : List (Nat × Nat))
+    (mids : List (List (Nat × Nat))) :
+    (Memo.read none draw (Memo.after none draw (Memo.read none draw m qs).1 mids) qs).2 = (Memo.read none draw m qs).2 :=
+  memo_stable_across_reads' draw m qs mids
+
+/-- forced hypothesis "unbounded": with room for 2 entries, the third evaluation evicts the first and the
+second read of the same pairs draws again from the advanced generators -/
+theorem memo_bounded_counterexample :
+    Memo.reads none (fun i k a => 100 * i + 10 * k + a) ⟨[], []⟩ [[(0, 0), (0, 1), (1, 0)], [(0, 0), (0, 1), (1, 0)]] =
+      [[0, 11, 100], [0, 11, 100]] ∧
+    Memo.reads (some 2) (fun i k a => 100 * i + 10 * k + a) ⟨[], []⟩ [[(0, 0), (0, 1), (1, 0)], [(0, 0), (0, 1), (1, 0)]] =
+      [[0, 11, 100], [20, 31, 110]] := by
+  constructor <;> decide
+
 end Coba.C04
